@@ -237,6 +237,17 @@ def check_claim(chk, cfg, m, fn):
         cas = _events_on(p, fn, m, "sendp", ("cmpxchg",))
         other_w = [e for e in sendp_w if e.kind != "cmpxchg"]
         for e in other_w:
+            if e.kind == "rmw" and e.extra == "add" and all(len(_events_on(q_, fn, m, "sendp", ("cmpxchg", "rmw", "store"))) <= 1 for q_ in ps) \
+                    and p.ret is not None and \
+                    paths.contains(p.ret, lambda x, r=e.res: x[0] == "b" and x[1] in ("urem", "srem") and paths.contains(x[3], lambda y: y == r)
+                                   and not (x[4][0] == "c" and x[4][2] & (x[4][2] - 1) == 0)):
+                # a free-running ticket (never brought back into range) reduced modulo the depth: the counter is 8 bits wide, so the
+                # slot sequence is periodic only if the depth divides 256
+                chk.ob("R4.cas-handout", pathid, False,
+                       "sendp is a free-running counter (fetch-and-add, never brought back) and the slot is its value modulo queue_len: when "
+                       "the 8-bit counter wraps from 255 to 0 the sequence of slots jumps unless queue_len divides 256 (depth 3: slot 0 is "
+                       "handed out twice in a row while slot 1 still holds an unreceived message)", e.inst.loc, fn.name)
+                continue
             if e.kind == "rmw" and e.extra in ("add", "sub"):
                 # a fetch-and-add hands every claimer a different ticket; whether the scheme is right then hinges on how the ticket
                 # counter is brought back into range, which is a protocol of its own that these rules have no model of
